@@ -5,8 +5,8 @@ set -u
 w="$1"; cd "$w" || exit 2
 export CARGO_NET_OFFLINE=true CARGO_TARGET_DIR="$w/target"
 feat="${3:-}"
-demo_cmd="cargo test --offline $feat --test seeded_demo"
-[ -f tests/seeded_demo.rs ] || demo_cmd="cargo test --offline --lib ${2:-seeded}"
+demo_cmd="timeout 600 cargo test --offline $feat --test seeded_demo"
+[ -f tests/seeded_demo.rs ] || demo_cmd="timeout 600 cargo test --offline --lib ${2:-seeded}"
 echo "## suite with change"; cargo test --offline --lib -- --skip c13_demo --skip c14_demo 2>&1 | grep -E "^test result|FAILED" | head -5
 echo "## demo with change (expect failure)"; $demo_cmd 2>&1 | grep -E "^test result|^error" | head -3
 git apply -R patch.diff || { echo "cannot revert"; exit 2; }
